@@ -31,4 +31,5 @@ void useName(const std::string &name);
 void fillName(char *name);
 void takeNames(char **names);
 void listIds(std::vector<int> &ids);
+void listWeights(std::vector<double> &weights);
 #endif
